@@ -9,7 +9,9 @@ loops_visit_all     the loops that carry data between journal, tables and memtab
 from . import analysis as A
 
 # callee-wide exemptions: a closed / full worker queue means the database is shutting down or the message is advisory
-QUEUE = ("flume::Sender::<T>::send", "flume::Sender::<T>::try_send", "flume::Receiver::<T>::try_recv", "flume::Receiver::<T>::recv")
+QUEUE = ("flume::Sender::<T>::send", "flume::Sender::<T>::try_send", "flume::Receiver::<T>::try_recv", "flume::Receiver::<T>::recv",
+         # a poisoned std lock is not a storage error (the panic that poisoned it is handled by PoisonDart)
+         "std::sync::Mutex::<T>::lock", "std::sync::RwLock::<T>::read", "std::sync::RwLock::<T>::write")
 # (function, callee) -> reason.  Every entry was read; nothing else in the crate discards a Result.
 SWALLOW_OK = {
     ("<locked_file::LockedFileGuardInner as std::ops::Drop>::drop", "std::fs::File::unlock"): "unlock failure in Drop is logged; the descriptor is closed right after, which releases the lock anyway",
@@ -17,6 +19,7 @@ SWALLOW_OK = {
     ("db_config::Config::new", "std::thread::available_parallelism"): "falls back to one core",
     ("meta_keyspace::MetaKeyspace::create_keyspace", "meta_keyspace::MetaKeyspace::maintenance"): "best-effort compaction of the meta tree after the rows were written durably",
     ("meta_keyspace::MetaKeyspace::remove_keyspace", "meta_keyspace::MetaKeyspace::maintenance"): "best-effort compaction of the meta tree after the rows were removed durably",
+    ("worker_pool::WorkerPool::join", "std::thread::JoinHandle::<T>::join"): "the worker's own error already poisoned the database in its loop; drop only waits for the thread to be gone",
     ("version::FormatVersion::parse_file_header", "<version::FormatVersion as std::convert::TryFrom<u8>>::try_from"): "an unknown version byte becomes None = refused",
 }
 
